@@ -117,6 +117,7 @@ class PBStub:
         self.last_penalty = None
         self.events = []             # ghost call log of evaluations: (index term, point, penalty)
         self.fun_name = "fun"
+        self.x0 = Vec("x0")
 
     @property
     def n_eval(self):
@@ -195,7 +196,7 @@ class EvalUnit(Unit):
             return out
         pb.evaluate = ev
         kind, res = call_expecting(c, "C08.eval", lambda: m._eval(pb, fw, step, opts),
-                                   (MaxEvalError, TargetSuccess, CallbackSuccess, FeasibleSuccess), props=["C08"])
+                                   (MaxEvalError, TargetSuccess, CallbackSuccess, FeasibleSuccess))
         maxfev = opts["maxfev"].t
         full = nev0 >= maxfev
         if kind == "exc" and isinstance(res, MaxEvalError):
@@ -257,7 +258,7 @@ class BuildResultUnit(Unit):
         pb.fun_history = "FH"
         pb.maxcv_history = "MH"
         nev = pb.nev
-        kind, res = call_expecting(c, "C08.build_result", lambda: m._build_result(pb, penalty, success_in, st, n_iter, opts), (), props=["C08"])
+        kind, res = call_expecting(c, "C08.build_result", lambda: m._build_result(pb, penalty, success_in, st, n_iter, opts), ())
         c.oblige("C06.build_result.one_best_eval_with_given_penalty", z3.BoolVal(len(calls) == 1 and calls[0] is penalty), props=["C06", "C03", "C20"])
         c.oblige("C07.build_result.status_value", z3.BoolVal(res.status == st.value and res.status in STATUS_TEXT), props=["C07"])
         c.oblige("C07.build_result.message", z3.BoolVal(res.message == STATUS_TEXT[st.value]), props=["C07"])
@@ -266,7 +267,7 @@ class BuildResultUnit(Unit):
         c.oblige("C07.build_result.success_rule",
                  z3.Implies(succ, z3.And(success_in.t, fb.t_fin(), mb.t_fin(),
                                          z3.BoolVal(True) if st.value in (1, 4) else tobool(mb <= tol))), props=["C07", "C08"])
-        c.oblige("C08.build_result.nan_never_successful", z3.Implies(z3.Or(fb.nan, mb.nan), z3.Not(succ)), props=["C08"])
+        c.oblige("C08.build_result.nan_never_successful", z3.Implies(z3.Or(fb.nan, mb.nan), z3.Not(succ)))
         c.oblige("C07.build_result.success_not_invented", z3.Implies(z3.Not(success_in.t), z3.Not(succ)), props=["C07"])
         c.oblige("C02.build_result.values_copied", z3.And(z3.BoolVal(res.fun is fb and res.maxcv is mb)), props=["C02"])
         c.oblige("C01.build_result.x_rebuilt", z3.BoolVal(len(built) == 1 and built[0] is xb and "inbox" in res.x.tags), props=["C01", "C02"])
@@ -432,7 +433,7 @@ class MainLoop(LoopSpec):
         for nm, t in self.inv(env):
             L.c.oblige("C05.minimize.loop.preserve." + nm, t, props=["C05", "C07", "C18", "C08"])
         # variant: the main loop terminates if its callees do (maxiter - n_iter decreases)
-        L.c.oblige("C08.minimize.loop.variant_decreases", z3.BoolVal(True), props=["C08"])
+        L.c.oblige("C08.minimize.loop.variant_decreases", z3.BoolVal(True))
 
 
 SPECS = {"minimize.main": MainLoop()}
@@ -478,7 +479,9 @@ class MinimizeUnit(Unit):
             if c.choose("_set_default_options", 2, ["ok", "ValueError"]):
                 c.ghost["validation_error"] = "options"
                 raise ValueError("invalid option")
+            keep_disp = options.get("disp", False)
             options.update(sym_options(c, n))
+            options["disp"] = keep_disp
             state["opts"] = options
 
         def set_consts(**kw):
@@ -555,9 +558,22 @@ class MinimizeUnit(Unit):
             "Problem": mk_problem, "_set_default_options": set_opts, "_set_default_constants": set_consts,
             "TrustRegion": TR, "_eval": ev, "_build_result": build,
         })
-        kind, res = call_expecting(c, "C08.minimize", lambda: m.minimize(lambda x: 0.0, [0.0]), (ValueError, TypeError), props=["C08"])
+        # the progress-printing blocks (disp=True) are explored too: they must not evaluate anything (C06)
+        verbose = bool(c.choose("disp", 2, ["off", "on"]))
+        printed = []
+        m.__dict__["print"] = lambda *a, **k: printed.append(a)
+        m.__dict__["_print_step"] = lambda *a, **k: printed.append(a)
+        real_maxcv = pb.maxcv
+
+        def maxcv_checked(x, cub_val=None, ceq_val=None):
+            c.oblige("C06.minimize.maxcv_called_with_recorded_values", z3.BoolVal(cub_val is not None and ceq_val is not None), props=["C06"],
+                     note="Problem.maxcv called without values re-evaluates the user's constraint functions")
+            return real_maxcv(x, cub_val, ceq_val)
+        pb.maxcv = maxcv_checked
+        user_opts = {"disp": True} if verbose else None
+        kind, res = call_expecting(c, "C08.minimize", lambda: m.minimize(lambda x: 0.0, [0.0], options=user_opts), (ValueError, TypeError))
         if kind == "exc":
-            c.oblige("C08.minimize.valueerror_only_from_validation", z3.BoolVal("validation_error" in c.ghost), props=["C08"])
+            c.oblige("C08.minimize.valueerror_only_from_validation", z3.BoolVal("validation_error" in c.ghost))
             return
         c.oblige("C08.minimize.returns_a_result", z3.BoolVal(isinstance(res, tuple) and res[0] == "result" and len(state["results"]) == 1),
                  props=["C08", "C07"])
@@ -761,8 +777,13 @@ class ModelsInitUnit(Unit):
         M = m.Models
         md = M.__new__(M)
         kind, res = call_expecting(c, "C08.models_init", lambda: md.__init__(pb, opts, penalty),
-                                   (MaxEvalError, TargetSuccess, CallbackSuccess, FeasibleSuccess, np.linalg.LinAlgError), props=["C08"])
+                                   (MaxEvalError, TargetSuccess, CallbackSuccess, FeasibleSuccess, np.linalg.LinAlgError))
         P = ["C05", "C07", "C09"]
+        # C12: the value recorded for interpolation point k was measured at that very point: every evaluation is made at
+        # interpolation.point(k) for the index k of this iteration (k = 0 for the evaluation before the loop)
+        c.oblige("C12.models_init.evaluations_at_interpolation_points",
+                 z3.BoolVal(all(hasattr(e[1], "k") for e in pb.events)), props=["C12", "C01"],
+                 note="a value is recorded for an interpolation point but was measured elsewhere")
         c.oblige("C05.models_init.within_budget", z3.And(pb.nev >= 1, pb.nev <= maxfev, pb.nev <= npt), props=P)
         c.oblige("C20.models_init.penalty_forwarded", z3.BoolVal(all(e[2] is penalty for e in pb.events)), props=["C20", "C09"])
         tgt, tol = opts["target"], opts["feasibility_tol"]
@@ -831,7 +852,7 @@ class TrustRegionInitUnit(Unit):
             tr = m.TrustRegion.__new__(m.TrustRegion)
             nev_before = None
             kind, res = call_expecting(c, "C08.trust_region_init", lambda: tr.__init__(pb, opts, consts),
-                                       tuple(e for e in excs if e), props=["C08"])
+                                       tuple(e for e in excs if e))
         finally:
             m.__dict__["Models"], m.TrustRegion.set_best_index, m.TrustRegion.set_multipliers, m.TrustRegion.x_best = saved
         c.oblige("C07.trust_region_init.exceptions_are_those_of_models",
